@@ -83,6 +83,8 @@ def spect_violation_gm(c):
 def spectator_case(ctx, rng, backend):
     n = rng.randint(2, 4) if backend in ("gaussian", "bosonic") else rng.randint(2, 3)
     names = GAUSS_NAMES if backend in ("gaussian", "bosonic") else FOCK_NAMES
+    if backend == "gaussian":
+        names = names + ["PassiveChannel"]  # multi-mode passive transformation (Gaussian backend only)
     pre = bc.weak_prefix(rng, n)
     if backend.startswith("fock"):
         pre = [c for c in pre if c[0] != "ThermalLossChannel"]
